@@ -4,7 +4,7 @@ SPEC = {
     'repo_srcs': ['Seasmart.cpp', 'N2kMsg.cpp', 'N2kStream.cpp', 'N2kTimer.cpp'],
     'translators': ['constants'],
     'lean_modules': ['N2k.Props.Consts.C19', 'N2k.Props.C19'], 'props_files': ['N2k/Props/Consts/C19.lean', 'N2k/Props/C19.lean'],
-    'case_start': ['exp', 'imp'],
+    'case_start': ['exp', 'imp', 'probe'],
     'trusted_base': [
         "model N2k/Model/Seasmart.lean transcribes Seasmart.cpp by hand (appendByte/append2Bytes/appendWord, "
         "nmea_compute_checksum, N2kToSeasmart, readNHexByte, SeasmartToN2k incl. the three fix: commits); tied to the "
